@@ -355,11 +355,19 @@ func runC15(sci interface{}) {
 						}
 					}
 					h.Out.IDs = world.IDs(objs)
-					if op == "scribble" {
-						// the returned slice belongs to the caller: destroy it
-						for i := range objs {
-							objs[i] = nil
+					if len(objs) > 0 && op != "scribble" {
+						// the caller keeps its slice for a while: nothing anybody else
+						// does (another reader appending to ITS slice, the cache filling
+						// a neighbouring window) may change it
+						detsim.Yield("reader-holds-slice")
+						detsim.Yield("reader-holds-slice")
+						if later := world.IDs(objs); !world.SameIDs(later, h.Out.IDs) {
+							detsim.Fail("torn-read", "a slice returned by List() changed while its caller held it (the returned slice does not belong to the caller)\n  at return: %v\n  later    : %v", h.Out.IDs, later)
 						}
+					}
+					if op == "scribble" {
+						// the returned slice belongs to the caller: append to it, then destroy it
+						world.Scribble(objs)
 					}
 				}
 				h.Ret = tick()
